@@ -127,6 +127,17 @@ def run(ctx):
     used = [p for p in reach if p.startswith('raw::registry_minimal::')]
     ctx.check(R, not used, 'no-unbounded-registry', 'the builder reaches raw::registry_minimal (a map that gains an entry per compiled node): %s' % used[:3])
     # positive control
+    # the front ends consume their input one item at a time: nothing materialises (collects / sorts) a whole batch
+    R2 = ctx.rule('R13.2', 'no front end of the builder collects or sorts its input: items are consumed one at a time', floor=1)
+    fronts = [f.path for f in lib.fn_list if not f.from_expansion and f.kind in ('AssocFn', 'Fn') and f.impl and
+              (adt_base(f.impl.get('self_ty') or '') in (A.builder, 'map::MapBuilder', 'set::SetBuilder', 'inner_map::MapBuilder', 'inner_set::SetBuilder') or
+               (f.path.rsplit('::', 1)[-1] in ('from_iter',) and adt_base(f.impl.get('self_ty') or '').rsplit('::', 1)[-1] in ('Map', 'Set')))]
+    als, reach2 = growth.alloc_sites(lib, cg, fronts)
+    mat = [(g, t, x) for g, t, x in als if x.rsplit('::', 1)[-1] in ('collect', 'from_iter', 'sort', 'sort_by', 'sort_by_key', 'concat', 'join', 'repeat')]
+    for g, t, x in mat:
+        ctx.violation(R2, 'materialise:%s' % g.path, 'a builder front end materialises its input (%s): memory now grows with the number of keys handed over in one call' % x.rsplit('::', 2)[-2:], fn=g, at=t.get('span'))
+    ctx.check(R2, not mat, 'streaming-front-ends', 'input materialised', detail='%d front-end functions, %d reachable' % (len(fronts), len(reach2)))
+    ctx.check(R2, len(fronts) >= 10, 'front-ends', 'only %d builder front ends found' % len(fronts), kind='anchor-missing')
     fx = ctx.fixture
     fcg = CallGraph(fx)
     fs, _ = growth.growth_sites(fx, fcg, [f.path for f in fx.fn_list if 'ctl_grow' in f.path])
